@@ -24,6 +24,7 @@ CheckRT(e) ==
              /\ Judge("C05", "RoundTrip", e.dec.t = "ok" /\ e.dec.v = e.vals, e.dec, e.vals)
              /\ Judge("C05", "RoundTripAs", e.dec3.t = "ok" /\ e.dec3.v = e.vals, e.dec3, e.vals)
              /\ Judge("C05", "SlackIndependent", e.dec2.t = "ok" /\ e.dec2.v = e.vals, e.dec2, e.vals)
+             /\ Judge("C05", "NoAlias", ~e.aliased, e.type, "decoded values share no memory with the input buffer")
              \* decoded into a struct that already held another decoded message of the type ("none": that one was not to be had)
              /\ Judge("C05", "ReuseIndependent", e.dec4.t = "none" \/ (e.dec4.t = "ok" /\ e.dec4.v = e.vals), e.dec4, e.vals)
         ELSE TRUE)
